@@ -25,6 +25,8 @@ type Step struct {
 	NodeID    string   `json:"node_id,omitempty"`
 	Addr      string   `json:"addr,omitempty"`
 	NodeMeta  string   `json:"node_meta,omitempty"` // "k=v"
+	Loc       string   `json:"loc,omitempty"`       // node locality "region/zone"
+	SvcLoc    string   `json:"svc_loc,omitempty"`   // service locality "region/zone"
 	Svc       string   `json:"svc,omitempty"`       // service name
 	SvcID     string   `json:"svc_id,omitempty"`
 	Kind      string   `json:"kind,omitempty"` // "", connect-proxy, connect-native, mesh-gateway, terminating-gateway, ingress-gateway, api-gateway
@@ -209,6 +211,12 @@ func (s Step) registerRequest() *structs.RegisterRequest {
 	}
 	for _, c := range s.Checks {
 		req.Checks = append(req.Checks, c.healthCheck(s.Node, s.Peer))
+	}
+	if p := strings.SplitN(s.Loc, "/", 2); len(p) == 2 {
+		req.Locality = &structs.Locality{Region: p[0], Zone: p[1]}
+	}
+	if p := strings.SplitN(s.SvcLoc, "/", 2); len(p) == 2 && req.Service != nil {
+		req.Service.Locality = &structs.Locality{Region: p[0], Zone: p[1]}
 	}
 	req.EnterpriseMeta = *structs.DefaultEnterpriseMetaInDefaultPartition()
 	return req
